@@ -936,6 +936,30 @@ class Ctx:
         self.trace.append(("c", v))
         return v
 
+    def all_models(self, over, limit=2000):
+        """every assignment of the z3 constants `over` that is consistent with the path condition
+        (model enumeration with blocking clauses); returns a list of z3 models"""
+        out = []
+        t = time.time()
+        self.solver.push()
+        try:
+            while True:
+                r = self.solver.check()
+                self.solver_calls += 1
+                if r == z3.unsat:
+                    break
+                if r != z3.sat:
+                    raise PathAbort("unknown during model enumeration")
+                m = self.solver.model()
+                out.append(m)
+                if len(out) > limit:
+                    raise PathAbort("model enumeration limit")
+                self.solver.add(z3.Or([v != m.eval(v, model_completion=True) for v in over]))
+        finally:
+            self.solver.pop()
+            self.solver_time += time.time() - t
+        return out
+
     def fork_int(self, x):
         """concretise a symbolic int (fork over its feasible values)"""
         if isinstance(x, SymInt):
